@@ -4,7 +4,7 @@ import random
 
 from .core import H, stream, corpus, compile_source, digest
 from .gen import draw_profile, gen_program, gen_script
-from .ast import to_text
+from .qast import to_text
 from .world import default_script
 
 CONFIGS = [(o, g) for o in (0, 1, 2) for g in (False, True)]
